@@ -267,6 +267,40 @@ func genC16(c *Ctx) {
 		c.add("parseshares", "0", hx(raw))
 		c.mark("craft" + hx(raw[:40]))
 	}
+	// compact shares whose payload starts with extreme unit length delimiters
+	for i := 0; i < 40*c.scale; i++ {
+		ns := pick(r, [][]byte{txNs, pfbNs})
+		start := r.Bool(70)
+		info := byte(0)
+		hdr := 34
+		if start {
+			info = 1
+			hdr = 38
+		}
+		raw := r.Bytes(512)
+		copy(raw, ns)
+		raw[29] = info
+		if start {
+			binary.BigEndian.PutUint32(raw[30:34], uint32(pick(r, []int{0, 10, 474, 100000})))
+		}
+		off := hdr + r.Intn(3)*7
+		binary.BigEndian.PutUint32(raw[hdr-4:hdr], uint32(off))
+		v := pick(r, []uint64{1 << 63, 1<<63 - 1, 1<<64 - 1, 1 << 62, 1 << 32, 1<<32 - 1, 1 << 31, 600, 474, 473, uint64(512 - off), uint64(512 - off - 1), 0})
+		d := uvarint(v)
+		if r.Bool(15) {
+			d = overlong(v&0xffff, 1+r.Intn(9))
+		}
+		copy(raw[off:], d)
+		c.add("parsetxs", hx(raw))
+		if r.Bool(50) {
+			cont := r.Bytes(512)
+			copy(cont, ns)
+			cont[29] = 0
+			binary.BigEndian.PutUint32(cont[30:34], uint32(pick(r, []int{0, 34, 40, 511, 512})))
+			c.add("parsetxs", hx(raw)+","+hx(cont))
+		}
+		c.mark("delim" + hx(raw[:60]))
+	}
 	// byte strings
 	for i := 0; i < 500*c.scale; i++ {
 		var b []byte
